@@ -28,7 +28,7 @@ func init() {
 				"profile, device and their nested settings types is read by the cache encoder and written by the decoder. R7: no " +
 				"encoder loop appends a view of a buffer that the next iteration overwrites.",
 			NotCovered: "that the maps equal a reference model after arbitrary synchronisation sequences; protobuf wire compatibility.",
-			Rules: map[string]string{"C14-R22": "cmd.setServerGroupProperties collects every bind prefix of every server, single addresses included, into the set against which the backend decoder checks dedicated addresses: the append is not made under a test of IsSingleIP (a device whose dedicated address is one of the single-address binds would be dropped at every synchronisation)", "C14-R20": "filecachepb.(*Ratelimiter).toInternal: the global limiter exactly for absent or disabled settings, otherwise the profile's own with the stored limit and subnets (shared with C09-R13)", "C14-R21": "filecachepb.ipToBytes stores netip.Addr.MarshalBinary of the address, so a device without a linked IP comes back without one", "C14-R18": "every clean-up goroutine of the profile database deletes from the index map that the lookup which starts it reads", "C14-R19": "the access settings a profile was built with are what Config() reports for the file cache, whether or not the profile has served a query in between (shared with C10-R6)", "C14-R17": "the backendpb converters read a field through a sub-message pointer only after a nil test of it (a panic in the synchronisation ends the periodic refresh loop)", "C14-R16": "ProfileStorage.Profiles hands on every received profile that converts (from the success edge of toInternal the next receive is reachable only through the appends to Profiles and Devices)", "C14-R15": "ProfileByHumanID answers only when the profile that contains the found device is the requested one (stale (profile, human ID) keys of moved devices)", "C14-RC": "class rules (error chains, shadowed results, character classes, crossed arguments, pool constructors, array pools, loop completeness, loop-carried buffers, replacing setters, complete clones, Grow arithmetic, pooled-buffer escape, sorted searches, fresh decode targets, per-iteration objects, whole-message copies, codec guards) over the packages this property rests on", "C14-R14": "profile decoders return a usable value, never a nil interface, on error-free paths (expected count zero; F16 was the one instance)", "C14-R13": "profile codecs: early default returns only for nil / disabled input; nil sub-messages only for nil input (shared class rules)", "C14-R12": "the periodic refresh worker that drives the profile sync (shared rule, see C13-R11)", "C14-R11": "weekly-schedule codecs: all seven weekdays converted, each from/to the field of its own day (constant-index stores or a full loop over a weekday-ordered list)", "C14-R1": "maps and generation only under mapsMu", "C14-R2": "clean-ups re-validated by generation; inserts bump it",
+			Rules: map[string]string{"C14-R24": "the file-cache codec copies the minutes of a pause-schedule interval as they are, in both directions (a conversion of the same-named field and nothing else): an interval that ends at midnight (End 1440) ends at midnight after a restart", "C14-R23": "the file-cache codec carries prefix lengths over unchanged, zero included (shared with C09-R16): a match-all subnet of an access or rate-limit list is the same subnet after a restart", "C14-R22": "cmd.setServerGroupProperties collects every bind prefix of every server, single addresses included, into the set against which the backend decoder checks dedicated addresses: the append is not made under a test of IsSingleIP (a device whose dedicated address is one of the single-address binds would be dropped at every synchronisation)", "C14-R20": "filecachepb.(*Ratelimiter).toInternal: the global limiter exactly for absent or disabled settings, otherwise the profile's own with the stored limit and subnets (shared with C09-R13)", "C14-R21": "filecachepb.ipToBytes stores netip.Addr.MarshalBinary of the address, so a device without a linked IP comes back without one", "C14-R18": "every clean-up goroutine of the profile database deletes from the index map that the lookup which starts it reads", "C14-R19": "the access settings a profile was built with are what Config() reports for the file cache, whether or not the profile has served a query in between (shared with C10-R6)", "C14-R17": "the backendpb converters read a field through a sub-message pointer only after a nil test of it (a panic in the synchronisation ends the periodic refresh loop)", "C14-R16": "ProfileStorage.Profiles hands on every received profile that converts (from the success edge of toInternal the next receive is reachable only through the appends to Profiles and Devices)", "C14-R15": "ProfileByHumanID answers only when the profile that contains the found device is the requested one (stale (profile, human ID) keys of moved devices)", "C14-RC": "class rules (error chains, shadowed results, character classes, crossed arguments, pool constructors, array pools, loop completeness, loop-carried buffers, replacing setters, complete clones, Grow arithmetic, pooled-buffer escape, sorted searches, fresh decode targets, per-iteration objects, whole-message copies, codec guards) over the packages this property rests on", "C14-R14": "profile decoders return a usable value, never a nil interface, on error-free paths (expected count zero; F16 was the one instance)", "C14-R13": "profile codecs: early default returns only for nil / disabled input; nil sub-messages only for nil input (shared class rules)", "C14-R12": "the periodic refresh worker that drives the profile sync (shared rule, see C13-R11)", "C14-R11": "weekly-schedule codecs: all seven weekdays converted, each from/to the field of its own day (constant-index stores or a full loop over a weekday-ordered list)", "C14-R1": "maps and generation only under mapsMu", "C14-R2": "clean-ups re-validated by generation; inserts bump it",
 				"C14-R3": "full sync clears all maps", "C14-R4": "lookup re-check decision trees", "C14-R5": "atomic cache write, version check",
 				"C14-R6": "codec field coverage", "C14-R7": "no loop-carried buffer aliasing in the encoder",
 				"C14-R8": "synchronisation protocol tables: Refresh (apply exactly what was fetched, advance the sync point, store the file cache on a full sync), fetchProfiles (a full sync asks from the zero time), needsFullSync, loadFileCache"},
@@ -41,6 +41,12 @@ var c14Maps = map[string]bool{"profiles": true, "devices": true, "dedicatedIPToD
 const pdb = "profiledb.(*Default)."
 
 func runC14(c *an.Ctx) {
+	// ---- R24: schedule minutes survive the file cache unchanged
+	c.Floor("C14-R24", 4)
+	c14ScheduleVerbatim(c, "C14-R24")
+	// ---- R23: prefix lengths survive the file cache (shared with C09-R16)
+	c.Floor("C14-R23", 1)
+	c.Borrow("C14-R23", runC09, func(o an.Obligation) bool { return o.Rule == "C09-R16" && strings.Contains(o.Key, "filecachepb") })
 	// ---- R22: the bind set holds every bind prefix
 	c.Floor("C14-R22", 1)
 	c14BindSetComplete(c, "C14-R22")
@@ -1214,7 +1220,10 @@ func c14Sync(c *an.Ctx) {
 			// a cache without profiles is empty; one with profiles and no devices is not (accounts that only use
 			// automatically created devices): its profiles are what the database knew when it wrote the cache (F58)
 			if load != "ok" || f.I("len(fc.Profiles)") == 0 {
-				if len(sets) == 0 && o.RetString() == "nil" && st["p0.syncTime"] == "" {
+				// a loaded cache without profiles was written by a synchronisation that found none: whether its sync
+				// point is restored makes no difference to what later synchronisations deliver, so it is not demanded
+				emptyCache := load == "ok"
+				if len(sets) == 0 && o.RetString() == "nil" && (st["p0.syncTime"] == "" || emptyCache) {
 					return ""
 				}
 				return "nothing applied (and the sync point untouched, so that the first refresh is a full one) without a usable cache"
@@ -1763,4 +1772,54 @@ func c14BindSetComplete(c *an.Ctx, rule string) {
 	}
 	c.Check(bad == "", rule, key, fn.Pos(), fmt.Sprintf("%d append(s) of bind prefixes, none under a test of IsSingleIP", n),
 		bad+": with real subnets and single addresses mixed in the bind data, the single addresses are missing from the set, and every device whose dedicated address is one of them is rejected at each synchronisation")
+}
+
+// c14ScheduleVerbatim: in (*DayInterval).toInternal and dayIntervalToProtobuf
+// the value stored into Start / End is, after conversions, the load of the
+// source's field of the same name: no arithmetic, no clamp (End may be 1440,
+// one more than the largest Start).
+func c14ScheduleVerbatim(c *an.Ctx, rule string) {
+	for _, k := range []string{"profiledb/internal/filecachepb.(*DayInterval).toInternal", "profiledb/internal/filecachepb.dayIntervalToProtobuf"} {
+		fn := c.Prog.Fn(k)
+		if fn == nil {
+			c.Und(rule, k, token.NoPos, "anchor not found")
+			continue
+		}
+		c.Analysed(k)
+		n := 0
+		an.Instrs(fn, func(in ssa.Instruction) {
+			st, ok := in.(*ssa.Store)
+			if !ok {
+				return
+			}
+			t, f, _, ok := an.FieldOf(st.Addr)
+			if !ok || !strings.HasSuffix(t, "DayInterval") || f != "Start" && f != "End" {
+				return
+			}
+			n++
+			v := st.Val
+			for {
+				if cv, isCv := v.(*ssa.Convert); isCv {
+					v = cv.X
+					continue
+				}
+				if ct, isCt := v.(*ssa.ChangeType); isCt {
+					v = ct.X
+					continue
+				}
+				break
+			}
+			src := ""
+			if ld, isLd := v.(*ssa.UnOp); isLd && ld.Op == token.MUL {
+				if _, sf, _, ok := an.FieldOf(ld.X); ok {
+					src = sf
+				}
+			}
+			c.Check(src == f, rule, fmt.Sprintf("%s: %s is copied as it is", k, f), st.Pos(), "a conversion of the source's "+f,
+				fmt.Sprintf("the %s of the interval is stored from %s, not from a plain conversion of the source's %s: the minutes of a pause schedule change on the way through the file cache (an interval that runs to midnight loses its last minute)", f, v.String(), f))
+		})
+		if n == 0 {
+			c.Und(rule, k, fn.Pos(), "no store into Start / End found")
+		}
+	}
 }
